@@ -5,5 +5,8 @@
 ArgsOK(hasM, hasEps, hasN, hasEv, hasData) ==
   /\ (hasM \/ hasEps \/ hasN \/ (hasData /\ hasEv))
   /\ (hasEv => hasData)
+(* Validation data are two arguments (indices I_vld and values y_vld): they   *)
+(* count as present only if BOTH are given.                                   *)
+ArgsOK6(hasM, hasEps, hasN, hasEv, hasI, hasY) == ArgsOK(hasM, hasEps, hasN, hasEv, hasI /\ hasY)
 
 =============================================================================
